@@ -255,6 +255,7 @@ class C14(core.Check):
             'without each pretty-print format. Every run: terminate within the step bound, and either (exit 0 and image written) '
             'or (exit != 0 and the pre-placed sentinel image neither changed nor opened for writing); planted must-reject faults '
             'must exit != 0. distinct_nontrivial = distinct (corruption, position, format, outcome class) tuples.')
+    rule = rule + ' ' + 'Symbol definitions closing a cycle of length 1..3 come in every order with uses in between, from #define / -D / configuration.'
     assumptions = ('termination is judged as bounded progress: B = 200 x source lines + 60000 monitored line-steps; RLIMIT_CPU is '
                    'the backstop; a wall-clock timeout is inconclusive (the step bound has a quadratic allowance per source line)',
                    'faults are planted in compiled code only (also inside #mute): a line of a conditional branch that is not compiled '
@@ -267,7 +268,7 @@ class C14(core.Check):
                         'pos:zero-length@end': 2, 'pos:zero-length@start': 2, 'pos:zero-length@before-org-gap': 2,
                         'pos:zero-length@muted': 2, 'pos:zero-length@end-after-label': 2, 'outcome:success': 3,
                         'outcome:failure': 3, 'output-in-missing-directory': 3, 'long-run:directed': 20, 'odd-spacing:directed': 10, 'corpus-example': 2, 'window-options': 3,
-                        'planted:symbol-cycle': 3, 'symbol-cycle:use-before-it-closes': 3, 'symbol-cycle:first-from-cmdline': 3,
+                        'planted:symbol-cycle': 3, 'no-image-asked-for': 3, 'symbol-cycle:use-before-it-closes': 3, 'symbol-cycle:first-from-cmdline': 3,
                         'symbol-cycle:first-from-config': 3}
 
     def make(self, isa_files, isa_name, main, src, fmt, planted, tags, missing_dir=False, extra_argv=()):
@@ -310,6 +311,10 @@ class C14(core.Check):
                     if rng.random() < 0.35:
                         extra = rng.choice([['-e', '200'], ['-s', '2', '-e', '90'], ['-s', '1'], ['-e', '5', '-f', '255']])
                         tags.add('window-options')
+                    elif (i + k) % 5 == 0:
+                        # no image asked for: the program is judged all the same, and nothing touches the image that is there
+                        extra = ['-n']
+                        tags.add('no-image-asked-for')
                     yield self.make({fn: itext}, fn, 'p.asm', src, fmt, planted, tags, extra_argv=extra)
             if i % 4 == 0:
                 yield self.make({fn: itext}, fn, 'p.asm', '\n'.join(lines) + '\n', None, None,
@@ -424,6 +429,9 @@ class C14(core.Check):
             if m['missing_dir']:
                 if out not in files:
                     vs.append(core.violated('success-reported-but-no-image', det, buckets=tags, nt=nt))
+            elif '-n' in case['runs'][0]['argv']:
+                if out in files:
+                    vs.append(core.violated('image-altered-although-none-was-asked-for', det, buckets=tags, nt=nt))
             else:
                 if out not in files:
                     # the sentinel is still there unchanged: success was reported but nothing was written
